@@ -1579,6 +1579,40 @@ def filled_arrays_to_fromiter(tree):
     return count[0]
 
 
+def search_loops_to_any(tree):
+    """N47  `for T in I: if C: X = True; break` / `else: X = False`  ->  `X = any(C for T in I)` (and the mirrored all form `if C: X = False; break / else: X = True`
+    -> `X = all(not C ..)`) when C is call-free (with a call in C the loop form is the canonical one, see N27)"""
+    count = [0]
+    for par in list(ast.walk(tree)):
+        for fld in ('body', 'orelse', 'finalbody'):
+            blk = getattr(par, fld, None)
+            if not isinstance(blk, list):
+                continue
+            for k, l in enumerate(blk):
+                if not (isinstance(l, ast.For) and len(l.body) == 1 and isinstance(l.body[0], ast.If) and not l.body[0].orelse and len(l.body[0].body) == 2
+                        and isinstance(l.body[0].body[1], ast.Break) and isinstance(l.body[0].body[0], ast.Assign) and len(l.orelse) == 1 and isinstance(l.orelse[0], ast.Assign)):
+                    continue
+                hit, miss = l.body[0].body[0], l.orelse[0]
+                if not (len(hit.targets) == 1 and len(miss.targets) == 1 and isinstance(hit.targets[0], ast.Name) and isinstance(miss.targets[0], ast.Name) and hit.targets[0].id == miss.targets[0].id
+                        and isinstance(hit.value, ast.Constant) and isinstance(miss.value, ast.Constant) and {hit.value.value, miss.value.value} == {True, False}
+                        and isinstance(hit.value.value, bool)):
+                    continue
+                C = l.body[0].test
+                if any(isinstance(n, (ast.Call, ast.Yield, ast.YieldFrom, ast.Await, ast.NamedExpr)) for n in ast.walk(C)):
+                    continue
+                x = hit.targets[0].id
+                tnames = {n.id for n in ast.walk(l.target) if isinstance(n, ast.Name)}
+                if x in tnames or x in {n.id for n in ast.walk(C) if isinstance(n, ast.Name)}:
+                    continue
+                elt = C if hit.value.value is True else push_not(C)
+                fn = 'any' if hit.value.value is True else 'all'
+                new = ast.Assign(targets=[ast.Name(id=x, ctx=ast.Store())], value=ast.Call(func=ast.Name(id=fn, ctx=ast.Load()), args=[
+                    ast.GeneratorExp(elt=elt, generators=[ast.comprehension(target=l.target, iter=l.iter, ifs=[], is_async=0)])], keywords=[]))
+                blk[k] = ast.fix_missing_locations(ast.copy_location(new, l))
+                count[0] += 1
+    return count[0]
+
+
 def merge_twin_branches(tree):
     """N30: `if c: T(A) else: T(B)` where both arms are the same single statement up to one sub-expression (the same call / assignment with
     one differing argument or value) -> `T(A if c else B)`."""
@@ -1675,5 +1709,6 @@ def normalize(tree):
     n.counts['tail_iteration'] = tail_iteration_to_recursion(tree)
     n.counts['twin_branches'] = merge_twin_branches(tree)
     n.counts['loop_to_comprehension'] = loops_to_comprehensions(tree)
+    n.counts['search_loops_to_any'] = search_loops_to_any(tree)
     n.counts['enumerate_dropped'] = drop_unused_enumerate(tree)
     return tree, n.counts
